@@ -219,3 +219,24 @@ Proof.
   exact (loop_rotate_h_keeps_ctrace_b h lvl top hd exits todo isback latch sexit ev bv fresh true).
 Qed.
 Print Assumptions C06_loop_rotation_any_level_ctrl_safe_b.
+
+(* the rotation of a loop with SEVERAL headers at ANY level: the CTrace twin of
+   C01_unified_rotation_any_level_preserves_paths_b, same boolean premise, strict reading *)
+From V Require Import Model.UniHierPath Model.UniHierApplic.
+Theorem C06_unified_rotation_any_level_ctrl_safe_b :
+  forall h lvl top H v entries headers names_cb exits todo isback latch sexit bv fresh,
+    walk_pre_uni h lvl top H v entries headers names_cb exits todo isback latch sexit bv fresh = true ->
+    exists nl g0 g1 tbl g1',
+      find h lvl = Some nl /\ collect h (children_h nl) = Some g0 /\
+      insert_cb g0 H v entries headers names_cb C_HEAD = Ok g1 /\
+      loop_rotate g1 H headers exits todo true tbl isback latch sexit v bv fresh = Ok g1' /\
+      forall n e e' ds,
+        (exists b p, find h n = Some b /\ n_kind b = KOrig p) ->
+        E (Fu v bv) e e' ->
+        CTrace h (resolve_flat h) true n e ds ->
+        CTrace (write_back h lvl g1') (resolve_flat (write_back h lvl g1')) true n e' ds.
+Proof.
+  intros h lvl top H v entries headers names_cb exits todo isback latch sexit bv fresh.
+  exact (unified_rotation_h_keeps_ctrace_b h lvl top H v entries headers names_cb exits todo isback latch sexit bv fresh true).
+Qed.
+Print Assumptions C06_unified_rotation_any_level_ctrl_safe_b.
